@@ -3024,43 +3024,133 @@ def _setup_defaults(ge):
     return par, out
 
 
-def _from_dataset(func, e, ds_names, depth=0):
-    """does the value depend on the dataset handed to the wrapper (its
-    parameters, or locals defined from them)?"""
-    if depth > 6:
+def _bind_call(call, func, what):
+    """{parameter of func: argument expression} of a call by position /
+    keyword (parameters left out map to their default expression)"""
+    par = [a.arg for a in func.args.args]
+    if func.args.vararg or func.args.kwarg or func.args.kwonlyargs:
+        raise AnalysisError(f"{what}: signature of {func.name}")
+    out = {}
+    for i, a in enumerate(call.args):
+        if isinstance(a, ast.Starred) or i >= len(par):
+            raise AnalysisError(f"{what}: call `{short(call, 40)}` not "
+                                "understood")
+        out[par[i]] = a
+    for kw in call.keywords:
+        if kw.arg is None or kw.arg not in par:
+            raise AnalysisError(f"{what}: call `{short(call, 40)}` not "
+                                "understood")
+        out[kw.arg] = kw.value
+    for name, d in zip(reversed(par), reversed(func.args.defaults)):
+        out.setdefault(name, d)
+    return out
+
+
+def _origin(chain, level, e, depth=0):
+    """'dataset' | 'none' | 'fixed': where the value of expression `e`,
+    evaluated in function chain[level], comes from.  chain = [(func,
+    binding of its parameters in the caller or None for the entry)]; the
+    entry function's parameters are the dataset handed in by the ancillary
+    feature machinery."""
+    func, bind = chain[level]
+    if depth > 12:
         raise AnalysisError(f"{func.name}: definition chain too deep")
-    for nm in names_in(e):
-        if nm in ds_names:
-            return True
+    par = [a.arg for a in func.args.args]
+    if isinstance(e, ast.Constant):
+        return "none" if e.value is None else "fixed"
+    if isinstance(e, ast.Name):
         defs = [n.value for n in walk(func) if isinstance(n, ast.Assign)
-                and any(isinstance(t, ast.Name) and t.id == nm
+                and any(isinstance(t, ast.Name) and t.id == e.id
                         for t in n.targets)]
-        if any(_from_dataset(func, d, ds_names, depth + 1) for d in defs):
-            return True
-    return False
+        if e.id in par and not defs:
+            if level == 0:
+                return "dataset"
+            if e.id not in bind:
+                raise AnalysisError(f"{func.name}: parameter {e.id} not "
+                                    "bound by the caller")
+            return _origin(chain, level - 1, bind[e.id], depth + 1)
+        if e.id in par:
+            defs = defs + [None]
+        kinds = set()
+        for d in defs:
+            if d is None:
+                kinds.add("dataset" if level == 0 else _origin(
+                    chain, level - 1, bind[e.id], depth + 1))
+            elif e.id in names_in(d):
+                continue
+            else:
+                kinds.add(_origin(chain, level, d, depth + 1))
+        if "dataset" in kinds:
+            return "dataset"
+        return "none" if kinds == {"none"} else "fixed"
+    kinds = {_origin(chain, level, n, depth + 1)
+             for n in ast.walk(e) if isinstance(n, ast.Name)}
+    return "dataset" if "dataset" in kinds else "fixed"
 
 
 def r59_dataset_layer(ctx, repo):
-    """the ancillary-feature layer computes ds["emodulus"]: every call of
-    get_emodulus there names every parameter whose default stands for one
-    particular set-up (pixel size 0.34, channel width 20, flow rate 0.16,
-    medium, temperature 23, LUT, viscosity model) and takes it from the
-    dataset – a keyword left out means that this code path silently uses
-    the default whatever the dataset says; sibling wrappers agree"""
+    """the ancillary-feature layer computes ds["emodulus"]: on every call
+    chain from an entry function of af_emodulus to a call of get_emodulus
+    (wrappers may delegate to a shared private helper), the call names
+    every parameter whose default stands for one particular set-up (pixel
+    size 0.34, channel width 20, flow rate 0.16, medium, temperature 23,
+    LUT, viscosity model) and its value comes – through the parameters
+    bound along the chain – from the dataset, or is None; a keyword left
+    out means that this code path silently uses the default whatever the
+    dataset says; all call sites agree on the keywords"""
     ge = repo.func(EM, "get_emodulus")
     par, setup = _setup_defaults(ge)
     if len(setup) < 5:
         raise AnalysisError("get_emodulus: set-up parameters with a default "
                             f"value: {sorted(setup)}")
-    sites = []
-    for q, f in repo.all_functions(AFEM):
-        for c in walk(f):
-            if isinstance(c, ast.Call) and last_attr(c) == "get_emodulus":
-                sites.append((q, f, c))
-    if len(sites) < 1:
+    funcs = {q: f for q, f in repo.all_functions(AFEM) if "." not in q}
+    site_of = {}
+    for q, f in funcs.items():
+        cs = [c for c in walk(f) if isinstance(c, ast.Call)
+              and last_attr(c) == "get_emodulus"]
+        if cs:
+            site_of[q] = cs
+    if not site_of:
         raise AnalysisError(f"{AFEM}: no call of get_emodulus")
+    edges = {q: [(call_name(c), c) for c in walk(f) if isinstance(
+        c, ast.Call) and call_name(c) in funcs and call_name(c) != q]
+        for q, f in funcs.items()}
+    # functions from which a call of get_emodulus is reached
+    reach = set(site_of)
+    changed = True
+    while changed:
+        changed = False
+        for q, es in edges.items():
+            if q not in reach and any(t in reach for t, _ in es):
+                reach.add(q)
+                changed = True
+    called = {t for q in reach for t, _ in edges[q]}
+    roots = sorted(reach - called)
+    if not roots:
+        raise AnalysisError(f"{AFEM}: call graph of the get_emodulus "
+                            "wrappers has no entry")
+    chains = []
+
+    def descend(chain, names):
+        q = names[-1]
+        if len(names) > 5:
+            raise AnalysisError(f"{AFEM}: delegation chain too deep")
+        for c in site_of.get(q, []):
+            chains.append((list(chain), list(names), c))
+        for t, c in edges[q]:
+            if t not in reach:
+                continue
+            if t in names:
+                raise AnalysisError(f"{AFEM}: recursive wrappers")
+            descend(chain + [(funcs[t], _bind_call(c, funcs[t], q))],
+                    names + [t])
+    for r in roots:
+        descend([(funcs[r], None)], [r])
+
     passed = {}
-    for q, f, c in sites:
+    seen = {}
+    for chain, names, c in chains:
+        q, f = names[-1], chain[-1][0]
         given = {}
         for i, a in enumerate(c.args):
             if isinstance(a, ast.Starred) or i >= len(par):
@@ -3093,45 +3183,45 @@ def r59_dataset_layer(ctx, repo):
         if unknown:
             raise AnalysisError(f"{q}: get_emodulus has no parameter "
                                 f"{unknown}")
-        passed[q] = given
-        ds_names = {a.arg for a in f.args.args}
+        passed[id(c)] = (q, given)
         miss = [p_ for p_ in par if p_ in setup and p_ not in given]
         fixed = [p_ for p_ in par if p_ in setup and p_ in given
-                 and not (isinstance(given[p_], ast.Constant)
-                          and given[p_].value is None)
-                 and not _from_dataset(f, given[p_], ds_names)]
+                 and _origin(chain, len(chain) - 1, given[p_]) == "fixed"]
+        path = " -> ".join(names)
+        seen[path] = seen.get(path, 0) + 1
         ok = not miss and not fixed
+        others = sorted({q2 for _, n2, c2 in chains if c2 is not c and miss
+                         and any(k.arg == miss[0] for k in c2.keywords)
+                         for q2 in [n2[-1]]})
         ctx.ob("R5.9", ok,
-               f"{q} passes {', '.join(p_ for p_ in par if p_ in setup)} to "
-               "get_emodulus, each taken from the dataset (or None)" if ok
+               f"{path}: get_emodulus receives "
+               f"{', '.join(p_ for p_ in par if p_ in setup)}, each taken "
+               "from the dataset (or None)" if ok
                else (
-                   f"{q} calls get_emodulus without `{miss[0]}`: this code "
-                   f"path computes ds['emodulus'] with the default "
-                   f"{miss[0]}={setup[miss[0]]!r} whatever the dataset's "
-                   "configuration says"
-                   + ("" if len(sites) < 2 else " (the sibling wrapper "
-                      + ", ".join(q2 for q2, _, c2 in sites if c2 is not c
-                                  and any(k.arg == miss[0]
-                                          for k in c2.keywords))
-                      + " passes it)") if miss else
-                   f"{q} passes the fixed value `{short(given[fixed[0]], 30)}`"
-                   f" as `{fixed[0]}` to get_emodulus instead of a value of "
-                   "the dataset"),
-               node=c, key=f"{AFEM}::{q}::get_emodulus set-up keywords from "
-               "the dataset")
-    # siblings pass the same set of keywords
-    if len(passed) > 1:
-        sets = {q: frozenset(g) for q, g in passed.items()}
-        ok = len(set(sets.values())) == 1
-        allk = set().union(*sets.values())
-        ctx.ob("R5.9", ok,
-               f"the {len(sets)} wrappers pass the same keywords to "
-               "get_emodulus" if ok else
-               "the wrappers disagree on the keywords passed to "
-               "get_emodulus: " + "; ".join(
-                   f"{q} omits {sorted(allk - v)}" for q, v in sets.items()
-                   if allk - v), node=sites[0][2],
-               key=f"{AFEM}::get_emodulus wrappers::same keywords")
+                   f"{q} (reached as {path}) calls get_emodulus without "
+                   f"`{miss[0]}`: this code path computes ds['emodulus'] "
+                   f"with the default {miss[0]}={setup[miss[0]]!r} whatever "
+                   "the dataset's configuration says"
+                   + (f" (the sibling {', '.join(others)} passes it)"
+                      if others else "") if miss else
+                   f"on the path {path} get_emodulus receives the fixed "
+                   f"value `{short(given[fixed[0]], 30)}` as `{fixed[0]}` "
+                   "instead of a value of the dataset"),
+               node=c, key=f"{AFEM}::{path} #{seen[path]}::get_emodulus "
+               "set-up keywords from the dataset")
+    # all call sites pass the same set of keywords
+    sets = {f"{q}[{k}]": frozenset(g)
+            for k, (q, g) in enumerate(passed.values())}
+    ok = len(set(sets.values())) == 1
+    allk = set().union(*sets.values())
+    ctx.ob("R5.9", ok,
+           f"the {len(sets)} call site(s) of get_emodulus pass the same "
+           "keywords" if ok else
+           "the wrappers disagree on the keywords passed to "
+           "get_emodulus: " + "; ".join(
+               f"{q} omits {sorted(allk - v)}" for q, v in sets.items()
+               if allk - v), node=chains[0][2],
+           key=f"{AFEM}::get_emodulus wrappers::same keywords")
 
 
 def run(ctx):
@@ -3170,8 +3260,10 @@ def run(ctx):
              "flow rate, temperature) that caller and callee share; the "
              "viscosity-model fallbacks agree; the ancillary-feature "
              "wrappers name every set-up parameter of get_emodulus that has "
-             "a concrete default and take it from the dataset",
-             minimum=12)
+             "a concrete default and take it from the dataset (one "
+             "obligation per call chain entry -> wrapper [-> helper] -> "
+             "get_emodulus, values traced through the bound parameters)",
+             minimum=13)
     m = Model(repo)
     r51(ctx, repo, m)
     r56(ctx, repo)
@@ -3344,6 +3436,24 @@ MUTANTS = [
     ("both wrappers drop the look-up table keyword", AFEM,
      [('        lut_data=calccfg["emodulus lut"],\n', '', 1),
       ('        lut_data=calccfg["emodulus lut"],\n', '')], "R5.9"),
+    ("shared helper receives a fixed pixel size from one wrapper", AFEM,
+     [('def compute_emodulus_visc_only(mm):\n'
+       '    """The user entered the viscosity directly"""\n'
+       '    calccfg = mm.config["calculation"]\n'
+       '    # compute elastic modulus\n'
+       '    emod = features.emodulus.get_emodulus(\n',
+       'def compute_emodulus_visc_only(mm):\n'
+       '    """The user entered the viscosity directly"""\n'
+       '    return _emodulus_for(mm, 0.34)\n'
+       '\n\n'
+       'def _emodulus_for(mm, pixel_size):\n'
+       '    calccfg = mm.config["calculation"]\n'
+       '    # compute elastic modulus\n'
+       '    emod = features.emodulus.get_emodulus(\n'),
+      ('        px_um=mm.config["imaging"]["pixel size"],\n'
+       '        temperature=None,\n',
+       '        px_um=pixel_size,\n'
+       '        temperature=None,\n')], "R5.9"),
     ("scale functions invert the inplace flag", SCALE,
      ("    copy = not inplace\n    if issubclass(area_um.dtype.type",
       "    copy = inplace\n    if issubclass(area_um.dtype.type"), "R5.1"),
@@ -3510,6 +3620,27 @@ TWINS = [
       '        temperature=None,\n'
       '        visc_model=None,\n'
       '        **kwargs)\n')),
+    ("case B wrapper delegates to a private helper that takes the medium "
+     "key", AFEM,
+     ('def compute_emodulus_visc_only(mm):\n'
+      '    """The user entered the viscosity directly"""\n'
+      '    calccfg = mm.config["calculation"]\n'
+      '    # compute elastic modulus\n'
+      '    emod = features.emodulus.get_emodulus(\n'
+      '        area_um=mm["area_um"],\n'
+      '        deform=mm["deform"],\n'
+      '        medium=calccfg["emodulus viscosity"],\n',
+      'def compute_emodulus_visc_only(mm):\n'
+      '    """The user entered the viscosity directly"""\n'
+      '    return _emodulus_for(mm, "emodulus viscosity", None)\n'
+      '\n\n'
+      'def _emodulus_for(mm, medium_key, temp=None):\n'
+      '    calccfg = mm.config["calculation"]\n'
+      '    # compute elastic modulus\n'
+      '    emod = features.emodulus.get_emodulus(\n'
+      '        area_um=mm["area_um"],\n'
+      '        deform=mm["deform"],\n'
+      '        medium=calccfg[medium_key],\n')),
     ("known-media wrapper with reordered keywords and a config alias", AFEM,
      ('        channel_width=mm.config["setup"]["channel width"],\n'
       '        flow_rate=mm.config["setup"]["flow rate"],\n'
